@@ -23,7 +23,8 @@ CLAIMED = {
     "C03": ("exploration",
             "Bounded liveness by simulation: cancellation before/at any step/never, node bodies stalled by the simulator; Send must return once its "
             "context is done while nodes are frozen, every run must drain to zero tasks (goroutine accounting is exact because every `go` goes "
-            "through the simulator), no panic, no deadlock.",
+            "through the simulator), no panic, no deadlock. Some runs add nodes that call Send from Process and a task that re-sets the thresholds "
+            "to their current values (lock traffic around the dispatch).",
             "A goroutine blocked for ever is detected as: no task schedulable, fake clock advanced by 72h, task still blocked.",
             "deterministic simulation: seeded scheduler, stalled-node fault, exact task accounting", "4 C03"),
     "C04": ("exploration",
@@ -43,8 +44,10 @@ CLAIMED = {
     "C06": ("exploration",
             "Histories up to 60 calls over {RegisterNode, RegisterPipeline incl. overwrite and duplicate ids, RemovePipeline, RemovePipelineAndNodes, "
             "RemoveNode} on 2 types x 3 pipeline ids x 4 node ids with Close faults; after every call the outcome and the Close counts of every node "
-            "object are compared with a model in which 'in use' means 'listed by a registered pipeline'; at the end every id is probed on a replayed copy.",
-            "Depth-7 exhaustive enumeration is not done (that is model checking); short histories are drawn with probability 1/3.",
+            "object are compared with a model in which 'in use' means 'listed by a registered pipeline'; at the end every id is probed on a replayed copy. "
+            "Nodes are sometimes registered behind one or two NodeUnwrapper wrappers. In addition every call sequence up to length 4 (quick) / 5 "
+            "(thorough) over a reduced alphabet of 10 calls is executed (11 110 / 111 110 histories).",
+            "The statement's depth-7 exhaustive enumeration is only approached (depth 4/5 over a reduced alphabet); beyond that histories are sampled.",
             "deterministic simulation: seeded call histories + Close fault injection + reference model", "4 C06"),
     "C07": ("exploration",
             "Policy sequences (allow/deny/default/invalid) interleaved with removals against the model, probe Sends after calls; concurrently, "
@@ -55,7 +58,8 @@ CLAIMED = {
     "C11": ("exploration",
             "Sequential histories up to 200 steps over events (3 ids, flush), non-gateable, no-id, clock advances around the expiry boundary, FlushAll, "
             "Close, with composition / send / gateable-composite faults, checked step by step against a GateModel; concurrent senders (2-4 tasks, "
-            "FlushAll in between) are checked for conservation (each accepted event in exactly one composition, same id, real-time order) and panics.",
+            "FlushAll in between) are checked for conservation (each accepted event in exactly one composition, same id, real-time order) and panics; "
+            "every history up to length 4/5 over a 9-step alphabet, with and without Broker, is executed as well.",
             "Without a Broker a group that is neither composed nor visibly dropped makes the model uncertain; such runs are not judged further (counted).",
             "deterministic simulation: seeded histories, controlled clock, fault injection at the Sender/ComposeFrom seams, model oracle", "4 C11"),
     "C12": ("exploration",
@@ -67,13 +71,16 @@ CLAIMED = {
     "C17": ("exploration",
             "The C11 histories with up to 5 simultaneously open groups and clock advances at expiry-1ns, expiry, expiry+1ns: after every successful "
             "Process no group with expiry < T may remain (each must have been composed and sent, oldest first), FlushAll/Close must emit every group "
-            "exactly once; the history ends with one flush probe per id that reveals what is still withheld.",
-            "Controlled clock through Filter.NowFunc, so boundary instants are exact.",
+            "exactly once; the history ends with one flush probe per id that reveals what is still withheld; every history up to length 4/5 over a 9-step "
+            "alphabet is executed; a concurrent mode opens groups from 2-4 tasks under a ticking, logged clock and then probes in small time steps: "
+            "after a successful Process at T every group whose expiry is certainly before T must have reached the Sender.",
+            "Controlled clock through Filter.NowFunc, so boundary instants are exact (the concurrent mode logs every instant the filter saw).",
             "deterministic simulation: seeded histories with clock advances at the expiry boundary + GateModel", "4 C17"),
     "C20": ("exploration",
             "Registry states reached by generated histories (several types, shared nodes, removed and overwritten pipelines); Broker.Reopen is called "
             "with no failing node and with each single node of a registered pipeline failing in turn (chosen from the tape); every node object bound "
-            "into a registered pipeline must be reopened, a failure must be carried by the returned error.",
+            "into a registered pipeline must be reopened, a failure must be carried by the returned error. A second scenario issues 2-3 overlapping "
+            "Reopen calls: each call must itself reach every node (invocations are attributed to the calling task) and carry the failure.",
             "Iteration order over event types is a seeded choice (map range rewritten).",
             "deterministic simulation: seeded registry histories + single-node fault injection", "4 C20"),
     "C08": ("exploration",
@@ -82,8 +89,9 @@ CLAIMED = {
             "write(2) as ground truth. Oracle: each acknowledged event is exactly one whole write, no partial or stray writes, real-time order of "
             "acknowledgements equals file order, a missing file implies MaxFiles>0 and the remaining files are the newest, files renamed away keep "
             "their content, every inode's content equals the recorded writes. The crash mode stops the scheduler at a tape-chosen step (process "
-            "kill: completed system calls persist) and evaluates the same oracle with in-flight calls allowed zero or one whole write.",
-            "Crash = process kill, not power loss (no fsync semantics). Systematic crash-point enumeration per schedule is not built; crash steps are sampled.",
+            "kill: completed system calls persist) and evaluates the same oracle with in-flight calls allowed zero or one whole write; for one "
+            "crash run in 40 the same schedule is replayed with the crash at EVERY scheduler step (fault enumeration for that schedule).",
+            "Crash = process kill, not power loss (no fsync semantics).",
             "deterministic simulation: seeded scheduler + file-system seam with crash points + write-log oracle", "4 C08"),
     "C09": ("exploration",
             "Payloads are generated from the statement's shape grammar (class-tagged string/[]byte/[]string/[][]byte/wrapper-value fields behind "
